@@ -511,7 +511,8 @@ class ThreadPool(object):
                     extra_threads = self.__nb_threads - self.__nb_active_threads
                     if (
                         self.__nb_threads > self._min_threads
-                        and extra_threads > self._queue.qsize()
+                        and extra_threads > 0
+                        and self._queue.empty()
                     ):
                         # No more work for this thread
                         # if there are more non active_thread than task
